@@ -37,6 +37,7 @@ func c10Gen(rt *rapid.T) wProg {
 		}
 	}
 	gGrpc(rt, &p, 15)
+	gLat(rt, &p, 25)
 	first := map[int]int{} // user -> first session slot
 	for s, u := range p.Sess {
 		if _, ok := first[u]; !ok {
